@@ -26,13 +26,27 @@ ASSUMPTIONS = ["BLAS threads pinned to 1 in every process (the property is about
 INITS = ["uniform_", "normal_", "xavier_uniform_", "xavier_normal_", "kaiming_uniform_", "kaiming_normal_", "constant_"]
 
 
+# one call of every random-consuming entry point, appended to each program that is compared across fresh processes
+TAIL = [{"k": "init_all", "a": 0.2},
+        {"k": "layer", "kind": "linear", "i": 3, "o": 2}, {"k": "layer", "kind": "conv1d", "i": 2, "o": 3},
+        {"k": "layer", "kind": "conv2d", "i": 2, "o": 3}, {"k": "layer", "kind": "bn", "i": 1, "o": 3, "affine": True, "momentum": 0.1},
+        {"k": "dropout", "p": 0.5, "shape": [3, 4]}, {"k": "split", "n": 11, "test": 0.3, "val": 0.25},
+        {"k": "apply_init", "n": 5, "fn": "kaiming_normal_"}, {"k": "apply_init", "n": 4, "fn": "xavier_uniform_"},
+        {"k": "train", "model": "mlp", "act": "tanh", "dropout": True, "bn": True, "bn_affine": True, "opt": "adam", "steps": 2},
+        {"k": "train", "model": "cnn", "act": "relu", "dropout": False, "bn": False, "bn_affine": False, "opt": "sgd", "steps": 2},
+        {"k": "rand", "shape": [2, 3]}, {"k": "randn", "shape": [3]}, {"k": "normal", "shape": [3], "loc": 2.0, "scale": 0.5},
+        {"k": "randint", "shape": [2, 2, 2], "low": 0, "high": 7}]
+
+
 @st.composite
 def programs(draw, max_len=7):
     steps = []
     for _ in range(draw(st.integers(2, max_len))):
         k = draw(st.sampled_from(["rand", "randn", "normal", "randint", "init", "layer", "dropout", "split", "train", "train", "fixed",
-                                  "apply_init"]))
+                                  "apply_init", "init_all"]))
         s = {"k": k}
+        if k == "init_all":
+            s["a"] = draw(st.sampled_from([0, 0.2, 1.0]))
         if k in ("rand", "randn", "normal", "randint"):
             s["shape"] = draw(st.sampled_from([[3], [2, 3], [2, 2, 2], [1]]))
             if k == "normal":
@@ -71,7 +85,7 @@ def programs(draw, max_len=7):
 
 def _nt(c):
     kinds = {s["k"] for s in c["prog"]}
-    rnd = kinds & {"rand", "randn", "normal", "randint", "init", "layer", "dropout", "split", "train", "apply_init"}
+    rnd = kinds & {"rand", "randn", "normal", "randint", "init", "layer", "dropout", "split", "train", "apply_init", "init_all"}
     return len(rnd) >= 2 and bool(kinds & {"fixed", "train"})
 
 
@@ -92,7 +106,7 @@ def check_inprocess(c, rec):
             raise Violation("repetition_dependence", "fixed-data result differs between runs")
     # only steps that draw continuous values carry enough entropy for "different seeds -> different digests"
     # (a few small integers, a short permutation or a small dropout mask coincide with noticeable probability)
-    draws = any(s["k"] in ("rand", "randn", "normal", "train", "apply_init")
+    draws = any(s["k"] in ("rand", "randn", "normal", "train", "apply_init", "init_all")
                 or (s["k"] == "init" and s.get("fn") != "constant_")
                 or (s["k"] == "layer" and not s["kind"].startswith("bn")) for s in c["prog"])
     if draws and c["seed"] != c["seed2"]:
@@ -116,6 +130,10 @@ def _child(c, hashseed, junk, drop):
 
 
 def check_subprocess(c, rec):
+    # process-level effects (string-hash order, allocation addresses) can hide in any code path: every program run
+    # across fresh processes ends with a sweep over all initialisers in all argument spellings
+    have = {s["k"] for s in c["prog"]}
+    c = dict(c, prog=c["prog"] + [s for s in TAIL if s["k"] not in have or s["k"] in ("layer", "train")])
     rec.nontrivial(_nt(c))
     d0, _ = run_program(c["prog"], c["seed"])
     n = 3
